@@ -72,34 +72,13 @@ func vfPair(wlo, whi int) vfObs {
 }
 
 // vfPairNorm: the same pair for the models whose coefficients mix the three proportions (F84,
-// TN93): with a free total weight the division by the symbolic total makes the solver time out,
-// so here the subset of selected sites is enumerated (16 concrete cases) and the weights of the
-// selected sites are constrained to sum to `total`: the proportions range over the grid of
-// multiples of 1/(2*total) of the simplex (faces included through the unselected sites).
+// TN93): with a free total weight the division by the symbolic total makes the solver time out
+// (measured), so here the weights of the selected sites are constrained to sum to `total`: the
+// proportions range over the grid of multiples of 1/(2*total) of the simplex (faces included
+// through the unselected sites). Pairs without comparable site: H_C07_est_nocomparable.
 func vfPairNorm(total int) vfObs {
-	var o vfObs
-	o.s1 = []uint8{vfA, vfA, vfC, vfA}
-	o.s2 = []uint8{vfA, vfG, vfT, vfC}
-	o.sel = make([]bool, 4)
-	o.w = make([]float64, 4)
-	subset := nondetRange(0, 15)
-	var n [4]float64
-	for i := 0; i < 4; i++ {
-		o.sel[i] = subset&(1<<uint(i)) != 0
-		o.w[i] = nondetDyadic(2, 1, 2*total)
-		if o.sel[i] {
-			n[i] = o.w[i]
-		}
-	}
-	o.tot = n[0] + n[1] + n[2] + n[3]
-	if subset != 0 {
-		assume(o.tot == float64(total))
-	}
-	o.p1 = n[1] / o.tot
-	o.p2 = n[2] / o.tot
-	o.q = n[3] / o.tot
-	o.p = (n[1] + n[2] + n[3]) / o.tot
-	o.anydiff = n[1]+n[2]+n[3] > 0
+	o := vfPair(1, 2*total)
+	assume(o.tot == float64(total))
 	return o
 }
 
@@ -138,24 +117,25 @@ func vfGe(a, b float64) bool {
 // vfJudge: the assertions common to all estimators.
 // d: value returned by the model; ref: published closed form; defined: there is a comparable
 // site and every argument of ln / x^(-1/alpha) is positive.
+// (Written as implications, not branches: every branch on a symbolic condition costs solver
+// queries, and the engine keeps the ln/pow axioms of every path it has seen.)
 func vfJudge(o vfObs, d float64, err error, ref float64, defined bool) {
 	verifAssert(err == nil, "no error")
-	if o.tot > 0 && !o.anydiff {
-		verifReach("nodiff")
-		verifAssert(d == 0, "no counted difference => distance 0")
-	}
+	comparable := o.tot > 0
+	verifAssert(!(comparable && !o.anydiff) || d == 0, "no counted difference => distance 0")
+	verifAssert(!defined || vfClose(d, ref), "distance equals the published closed form")
+	verifAssert(!defined || (vfFinite(d) && vfGe(d, o.p)), "corrected distance is finite and >= the observed proportion of differing sites")
+	verifAssert(!(comparable && !defined) || !(vfFinite(d) && d >= 0 && d <= o.p), "saturated pair (argument of ln <= 0) is not reported as a finite distance in [0, observed proportion]")
+	verifAssert(comparable || !(vfFinite(d) && d >= 0), "pair without comparable site is not reported as a finite non-negative distance")
+	// vacuity guards
 	if defined {
-		verifReach("defined")
-		verifAssert(vfClose(d, ref), "distance equals the published closed form")
-		verifAssert(vfFinite(d) && vfGe(d, o.p), "corrected distance is finite and >= the observed proportion of differing sites")
-		return
-	}
-	if o.tot > 0 {
+		if o.anydiff {
+			verifReach("defined")
+		} else {
+			verifReach("nodiff")
+		}
+	} else if comparable {
 		verifReach("saturated")
-		verifAssert(!(vfFinite(d) && d >= 0 && d <= o.p), "saturated pair (argument of ln <= 0) is not reported as a finite distance in [0, observed proportion]")
-	} else {
-		verifReach("nocomparable")
-		verifAssert(!(vfFinite(d) && d >= 0), "pair without comparable site is not reported as a finite non-negative distance")
 	}
 }
 
